@@ -40,6 +40,7 @@ MIX = ("obj", [("b", "e", BOOL), ("i8", "e", I("I8")), ("u8", "e", I("U8")), ("i
                ("ms", "e", MAP(STR)), ("inner", "e", INNER), ("inners", "e", VEC(INNER)), ("vv", "e", VEC(VEC(I("I32"))))])
 ATTR = ("obj", [("a", "a", I("I32")), ("s", "a", STR), ("b", "a", BOOL), ("u", "a", I("U64")), ("v", "e", I("I32")), ("t", "e", STR)])
 ATTRONLY = ("obj", [("x", "a", I("I32")), ("type", "a", STR)])
+ATTRNUM = ("obj", [("i8", "a", I("I8")), ("u8", "a", I("U8")), ("i16", "a", I("I16")), ("u32", "a", I("U32")), ("i64", "a", I("I64")), ("b", "a", BOOL), ("d", "a", DBL)])
 FLT = ("flt",)
 ENUM_NAMES = ["Red", "green", "Dark Blue&<"]
 ENUM = ("enum", ENUM_NAMES)
@@ -60,9 +61,10 @@ CAT = [NULL, BOOL, I("I8"), I("U8"), I("I16"), I("U16"), I("I32"), I("U32"), I("
        STR, STR, STR, VEC(STR), MAP(STR),          # u16string, u32string, wstring, vector<u16string>, map<string,u32string>
        VEC(BOOL), FLT, VEC(FLT), MAP(FLT), ENUM, VEC(ENUM), MAP(ENUM), I("I8"), VEC(I("I8")),       # 42..50: vector<bool>, float, enum, char
        OPT(I("I32")), OPT(STR), VEC(OPT(I("I32"))), VEC(OPT(STR)), MAP(OPT(DBL)), OPT(VEC(I("I32"))),   # 51..56: optional / unique_ptr
-       OPTC, VEC(OPTC)]                                                                               # 57, 58
+       OPTC, VEC(OPTC),                                                                              # 57, 58
+       ATTRNUM, VEC(ATTRNUM)]                                                                         # 59, 60: numeric attributes (XML only)
 
-JSON_TYPES = [i for i in range(len(CAT)) if i not in (33, 34, 35, 36)]
+JSON_TYPES = [i for i in range(len(CAT)) if i not in (33, 34, 35, 36, 59, 60)]
 XML_TYPES = [i for i in range(12, len(CAT)) if i not in (37, 38, 39, 43, 46, 49, 51, 52, 56)]
 ENCODINGS = ["utf8", "utf16le", "utf16be", "utf32le", "utf32be"]
 PYCODEC = {"utf8": "utf-8", "utf16le": "utf-16-le", "utf16be": "utf-16-be", "utf32le": "utf-32-le", "utf32be": "utf-32-be"}
@@ -734,20 +736,8 @@ def drivers(vlib):
 
 
 def load_known(vlib, prop):
-    """known findings of this property: /verif/known_findings.jsonl (maintained by the coordinator); entries of
-    corpus/<prop>.known.jsonl are used for ids that the main file does not list yet"""
-    allk = vlib.load_known(prop)
-    kn = [k for k in allk if k.get("status") == "known" and k.get("driver", "jx") == "jx"]
-    have = set(k.get("id") for k in allk)
-    p = os.path.join(VERIF, "corpus", prop + ".known.jsonl")
-    if os.path.exists(p):
-        for l in open(p):
-            l = l.strip()
-            if l and not l.startswith("#"):
-                d = json.loads(l)
-                if d.get("id") not in have and d.get("status") == "known":
-                    kn.append(d)
-    return kn
+    """known findings of this property, from /verif/known_findings.jsonl only (maintained by the coordinator)"""
+    return [k for k in vlib.load_known(prop) if k.get("status") == "known" and k.get("driver", "jx") == "jx"]
 
 
 def load_corpus(prop):
@@ -974,22 +964,27 @@ def run_checks(prop, ctx, vlib, want=("C08", "C01")):
     # ---------------- stage 3: re-renderings by independent emitters
     r3 = stage3_json(vlib, impl, model, rng, tier, docs, known_ids, want, bump, stats)
     r3x = stage3_xml(vlib, impl, model, rng, tier, xdocs, known_ids, want, bump, stats)
+    import jx_paths
+    r3p = jx_paths.stage_paths(vlib, impl, model, rng, tier, known_ids, want, bump, stats)
+    r3a = jx_paths.stage_attrs(vlib, impl, model, rng, tier, bump, stats)
     for k in ("failing", "diffs", "notes", "samples"):
-        r3[k] = r3[k] + r3x[k]
-    r3["evaluations"] += r3x["evaluations"]
+        r3[k] = r3[k] + r3x[k] + r3p[k] + r3a[k]
+    r3["evaluations"] += r3x["evaluations"] + r3p["evaluations"] + r3a["evaluations"]
     failing += r3["failing"]
     diffs += r3["diffs"]
     notes += r3["notes"]
 
     samples = [dict(case=c["line"], implementation=(c["save"][:200] + " | " + c["load"][:120]), model=c.get("mchk")) for c in cases[:2]]
     samples += r3["samples"]
-    rule = ("typed values from a 59-entry catalogue of C++ targets (scalars at root, vector<T>, map<string,T>, classes with members of every kind, nested; "
+    rule = ("typed values from a 61-entry catalogue of C++ targets (scalars at root, vector<T>, map<string,T>, classes with members of every kind, nested; "
             "XML attributes) with strings over all of Unicode (quotes, backslashes, C0 controls, markup characters, astral planes, white space), integer and double "
             "extremes, empty and nested containers, null x {memory, stream} x 5 encodings x BOM x {compact, pretty x {space, tab} x count 0..8}: saved and loaded back "
             "by the implementation (jx.rt), every produced document decoded per configuration and parsed by the extracted Coq reference parser and compared with the "
             "model's DOM (m.chk), every load predicted by the model (m.load); then each valid document re-rendered by hand-written emitters (white space, escapes, "
             "member order, numeric spelling, encoding, BOM) and loaded by implementation and model; reference parser cross-checked against Python's json on all "
-            "renderings and on mutated (mostly malformed) texts.  non-trivial = distinct stage-1 case whose value has text outside printable ASCII or needing an escape, "
+            "renderings and on mutated (mostly malformed) texts; classes with validators (Required, Range) at every nesting loaded from generated JSON and XML documents "
+            "(jx.val), the map of the ValidationException compared with the model of the scopes' GetPath and, for JSON, with the RFC 6901 pointers of the failing members "
+            "(Coq specification and an independent Python walk).  non-trivial = distinct stage-1 case whose value has text outside printable ASCII or needing an escape, "
             "an integer beyond 32 bits, a double, null, a nested or an empty container")
     return dict(evaluations=len(lines1) + len(mlines) + r3["evaluations"], distinct_nontrivial=nt, rule=rule, samples=samples, classes=classes,
                 failing=failing[:25], diffs=diffs[:25], known_lines=known_lines, notes=notes, exhaustive=False,
@@ -1212,6 +1207,17 @@ def replay(rp, vlib):
         res["model"] = mo
         res["expected_load_by_property"] = "OK " + t[5]
         res["property_holds"] = mo[0].endswith("PROP ok") and (not save_ans.startswith("OK ") or load_ans == "OK " + t[5])
+    elif t[0] == "jx.val":
+        import jx_paths
+        mo = vlib.run_driver(model, ["m.val %s %s %s %s" % (t[1], t[3], t[4], t[5])], jobs=1)[0]
+        m_impl, _, m_spec = mo.partition(" | ")
+        res["implementation"] = jx_paths.show(a)
+        res["model_of_the_scopes"] = jx_paths.show(m_impl)
+        if t[1] == "json":
+            res["json_pointers_rfc6901"] = jx_paths.show(m_spec)
+            res["property_holds"] = a == m_spec
+        else:
+            res["property_holds"] = a == m_impl
     elif t[0] == "jx.load":
         # the encoding of the rendering is not part of the implementation's case line; the replay file carries it
         enc = rp.get("encoding", "utf8")
